@@ -373,3 +373,41 @@ def c12_r5(ctx):
                      i.where)
         else:
             ctx.ok()
+
+
+ORDER_DESTROYING = ("swap_remove", "swap", "reverse", "sort", "sort_by", "sort_by_key", "sort_unstable", "sort_unstable_by",
+                    "sort_unstable_by_key", "rotate_left", "rotate_right", "retain", "retain_mut", "dedup", "dedup_by",
+                    "dedup_by_key", "truncate", "clear", "drain", "split_off", "fill", "resize")
+
+
+@rule("C12.R7", floor=2)
+def c12_r7(ctx):
+    """Stack discipline: the DFS stack (the Vec popped by the loop that issues the cyclic
+    verdicts) and the order-of-emission vector are changed only by push, pop and the
+    order-preserving `remove`; no operation whose std contract reorders or discards elements
+    is applied to them (the stack's order *is* the ancestry the cycle test and the emission
+    order rely on)."""
+    fs = [f for f in sort_fns(ctx.P) if f.constructs(ERR, "CircularDependence")]
+    ctx.need(len(fs) == 1, "the DFS function")
+    f = fs[0]
+    c, S, site = _cycle_set(ctx, f)
+    pops = [p for p in f.calls_to(VEC_POP) if f.on_cycle(p.bb)]
+    ctx.need(pops, "DFS stack pop")
+    outer = max(pops, key=lambda p: len(f.natural_loop(p.bb)))
+    stack = f.vars_of_operand(outer.args[0])
+    for c2 in f.calls:
+        if not c2.args:
+            continue
+        ep = erase_generics(c2.path)
+        if not (ep.startswith("std::vec::Vec::") or ep.startswith("core::slice::") or ep.startswith("std::slice::")):
+            continue
+        tv = f.vars_of_operand(c2.args[0])
+        on_stack = tv == stack
+        on_emit = any(o[-1] == ("field", "frames_in_order") for o in f.origins_of_operand(c2.args[0]))
+        if not (on_stack or on_emit):
+            continue
+        ctx.inst("%s on the %s" % (c2.name, "DFS stack" if on_stack else "emission vector"), c2.where)
+        if c2.name in ORDER_DESTROYING:
+            ctx.viol((f.id, "stack-order-destroyed", c2.name), "`%s` reorders or discards frames of the %s: ancestry / emission order is no longer what the cycle test and the plan rely on (an acyclic graph can be rejected or a rule emitted before its prerequisite)" % (c2.name, "DFS stack" if on_stack else "emission vector"), c2.where)
+        else:
+            ctx.ok()
